@@ -23,7 +23,7 @@ sys.path.insert(0, str(core.ROOT / 'tools'))
 
 PROP = 'C08'
 MODEL_MODULES = ['TenpyModel.Util.J', 'TenpyModel.MPS.Eval']
-PROPS_MODULES = ['TenpyModel.C08.Props', 'TenpyModel.C08.PropsMPS']
+PROPS_MODULES = ['TenpyModel.C08.Props', 'TenpyModel.C08.PropsMPS', 'TenpyModel.C08.Props2']
 LEVEL = 'proof'
 BUDGET = {'quick': 200, 'thorough': 1500}
 RULE = ('kets and bras from from_full / random block-sparse tensors + canonical_form / from_singlets / product states '
